@@ -63,6 +63,10 @@ add("C18", "model_checking", "same rig and model as C20 with the C18 guarantees 
     "plus DagStore.tla (save at system-call grain, crash anywhere, all-or-nothing invariant) and a ptrace kill sweep of the real UpdateSpec at every system call and torn write", API_NOTE + "; ptrace supervisor for the save sweep",
     "TLA+ models (TLC) + trace validation of the real handlers + ptrace kill-point enumeration of a save, all judged by TLC", "api", "5/C18")
 
+add("C12", "model_checking", "NodeIO.tla models one step's writer plumbing across attempts (setup, writer routing, bufio flushing, capture pipe, teardown, done flag, old goroutine's deferred teardown) and TLC proves 'log on disk = what the last attempt printed' and 'the step finishes' for behaviours without the teardown race; "
+    "real steps (real scheduler, real command executor, real child processes printing counted patterns) are run for every combination of {stdout file, stderr file, output variable, script} x retry plans x sizes around the buffer and pipe boundaries, compared byte for byte, and judged by TLC (NodeIOObserve)",
+    "trusted: TLC; the child emitter and the byte comparison in the rig; relaunch order forced through the gate hooks (benign order everywhere, the racy order in one pinned scenario)", "TLA+ model of the step IO plumbing (TLC) + matrix of real step executions with byte-exact comparison judged by TLC", "nodeio", "5/C12")
+
 ALL = ["C%02d" % i for i in range(1, 21)]
 for p in ALL:
     if p not in CHECKS:
@@ -97,6 +101,8 @@ def main():
              "kind_free_text": "mutation and canary sweeps of the real loader entry points; records judged by TLC"},
             {"name": "api", "path": "harness/rig/api.go + spec/ApiControl.tla + spec/MCApi.tla + spec/ApiObserve.tla + spec/DagStore.tla + spec/SaveCrashObserve.tla", "serves_properties": ["C18", "C20"],
              "kind_free_text": "action-sequence driver around the real API handlers, client and stores with live status sockets and an argv stub; trace validation by TLC"},
+            {"name": "nodeio", "path": "harness/rig/nodeio.go + spec/NodeIO.tla + spec/NodeIOObserve.tla", "serves_properties": ["C12", "C11"],
+             "kind_free_text": "real steps with real child processes under the real scheduler; byte-exact output comparison; records judged by TLC"},
             {"name": "admit", "path": "harness/rig/admit.go + spec/Admission.tla + spec/AdmissionObserve.tla", "serves_properties": ["C14"],
              "kind_free_text": "graph enumerator around scheduler.NewExecutionGraph / agent.Run; records judged by TLC"},
         ],
